@@ -332,7 +332,7 @@ func writeFaults(r *RunCtx) {
 	c := r.ch
 	w := newWorld(r, c.Choose(3, "cfg.syn") == 0, vectorsBuild)
 	defer w.CloseAll()
-	zap.DefaultFileMergerBufferSize = []int{16, 64, 256, 4096, 0}[c.Choose(5, "io.mergebuf")] // 0: the default size of the buffered writer
+	zap.DefaultFileMergerBufferSize = []int{16, 64, 256, 4096, 0, 1, 3, 7}[c.Choose(8, "io.mergebuf")] // 0: the default size of the buffered writer
 	w.smallWorld(len(w.Cfg.SynFields) > 0, vectorsBuild)
 	thorough := r.Tier == "thorough"
 	maxOff := 10
@@ -761,7 +761,8 @@ func cancelledMerges(r *RunCtx) {
 	live0 := engineLive()
 	for _, in := range inst {
 		p := r.path("cancel")
-		prefill(r, p, int(ref.size), nil)
+		before := drawPrefill(r, int(ref.size), nil)
+		writePrefill(r, p, int(ref.size), before)
 		ch := make(chan struct{})
 		closed := false
 		doClose := func() {
@@ -807,7 +808,14 @@ func cancelledMerges(r *RunCtx) {
 				r.fail("C18.wrong-error", "Merge", "%s returned %v, not the closed error", what, err)
 			}
 			if fileExists(p) {
-				r.fail("C18.file-left-behind", "Merge", "%s returned the closed error but left a file behind", what)
+				// a file that was at the path before the call and has not been touched
+				// is not a file this merge created or left behind (an implementation may
+				// notice the cancellation before it goes near the path)
+				now, _ := os.ReadFile(p)
+				if before == nil || !bytes.Equal(now, before) {
+					r.fail("C18.file-left-behind", "Merge", "%s returned the closed error but left a file behind (%d bytes)", what, len(now))
+				}
+				r.count("probe.cancel.preexisting-file-untouched")
 			}
 			r.count("fault.cancel.aborted")
 			if closed && (in.k > 0 || in.e > 0) {
